@@ -4,7 +4,7 @@ import Hv.Generated.FactsC17
 namespace Hv.C17
 
 /-- The kernel-checked decision for the facts extracted from /repo on this run. -/
-theorem verdict : (classify Generated.factsC17).Sound (Holds (cfgOf Generated.factsC17) Generated.factsC17.handlers (ceaseOf Generated.factsC17) (closeOf Generated.factsC17))
+theorem verdict : (classify Generated.factsC17).Sound (Holds (cfgOf Generated.factsC17) Generated.factsC17.handlers (ceaseOf Generated.factsC17) (closeOf Generated.factsC17) (muOf Generated.factsC17))
     (HoldsPartial (cfgOf Generated.factsC17) Generated.factsC17.handlers) :=
   classify_sound _
 
@@ -21,5 +21,9 @@ theorem verdict : (classify Generated.factsC17).Sound (Holds (cfgOf Generated.fa
 #print axioms witness_stuck
 #print axioms refutes_looseCheck
 #print axioms holds_partial
+#print axioms refutes_lockBeforeDrain
+#print axioms VigilMu.no_mu_deadlock
+#print axioms VigilMu.drain_progress
+#print axioms VigilMu.stuck_forever
 
 end Hv.C17
